@@ -523,6 +523,7 @@ def parse_authority(authority: bytes) -> list[Node]:
         return out
     if b"@" in authority:
         offset += 1  # for the @
+    host_end = offset + len(host)  # the span covers the host as written, escapes included
     host = unquote_to_bytes(host)
     if host.startswith(b"["):
         if not host.endswith(b"]"):
@@ -534,7 +535,7 @@ def parse_authority(authority: bytes) -> list[Node]:
             out.append(parse_ip(host).shift(offset))
         except ValueError:
             if is_domain(host):
-                out.append(Node("network.domain", host, "", offset, offset + len(host)))
+                out.append(Node("network.domain", host, "", offset, host_end))
     return out
 
 
